@@ -10,34 +10,34 @@ HIST_NOTE = ("Trusted base: the simulator (SimFS interposition, virtual-time loo
 
 CHECKS = {
     "C01": ("E-HIST", "exploration", "4/C01",
-            "Seeded request histories (all write/read methods, restarts, store-cache evictions, clock jumps, chunked delivery) through both real front ends over tree-git, bare-git and git-config collections; after every step a client-side audit (PROPFIND Depth 1 + GET of every member, sampled tombstones) is compared with an acknowledgement-following model. Exploration is the honest level: histories are sampled, each one is checked completely.",
+            "Seeded request histories (all write/read methods, restarts, store-cache evictions, clock jumps, chunked delivery) through both real front ends over tree-git, bare-git and git-config collections; after every step a client-side audit (PROPFIND Depth 1 + GET of every member, sampled tombstones) is compared with an acknowledgement-following model; a quarter of the runs drive vdir/memory/bare/tree stores at the Store API through several handles; 30 % of the HTTP runs inject ENOSPC/EIO into write requests. Exploration is the honest level: histories are sampled, each one is checked completely.",
             "deterministic simulation: seeded histories + follow-the-ack model + full audit per step"),
     "C02": ("E-HIST", "exploration", "4/C02",
-            "Same histories with a view-heavy mix; at every audit the etag of each member is compared across PUT response, GET, HEAD, PROPFIND Depth 0/1, multiget, calendar-query and sync-collection, and a per-path bijection etag <-> served bytes is maintained over the whole history.",
+            "Same histories with a view-heavy mix; at every audit the etag of each member is compared across PUT response, GET, HEAD, PROPFIND Depth 0/1, multiget, calendar-query and sync-collection, and a per-path bijection etag <-> served bytes is maintained over the whole history. One third of the runs (E-CONC) overlap a read with a write on the aiohttp front end (await points, parked worker threads over the whole length of a git commit) and require equivalence with one of the two sequential executions.",
             "deterministic simulation: cross-view and cross-time etag/body bijection oracle"),
     "C03": ("E-HIST", "exploration", "4/C03",
-            "Conditional PUT/DELETE/GET/HEAD with validators drawn from the etag history (current, stale, foreign, lists, *, empty, unquoted, garbage) on present and absent resources through both front ends; the precondition is evaluated by the model exactly as the statement words it; refused requests must leave the audited state unchanged.",
+            "Conditional PUT/DELETE/GET/HEAD with validators drawn from the etag history (current, stale, foreign, lists, *, empty, unquoted, garbage) on present and absent resources through both front ends; the precondition is evaluated by the model exactly as the statement words it; refused requests must leave the audited state unchanged. One third of the runs overlap two conditional writes (E-CONC).",
             "deterministic simulation: model-evaluated preconditions over etag histories"),
     "C06": ("E-HIST", "exploration", "4/C06",
-            "Histories over few UIDs and many names (UID moves, deletes, restarts, cache evictions); UIDs are extracted from served bytes by an independent parser; real conflicts must be refused without effect, non-conflicts must never be refused as no-uid-conflict.",
+            "Histories over few UIDs and many names (UID moves, deletes, restarts, cache evictions); UIDs are extracted from served bytes by an independent parser; real conflicts must be refused without effect, non-conflicts must never be refused as no-uid-conflict. POSTs carry media-type parameters and members created by POST count as calendar objects under whatever name the server chose; half of the runs use the Store API with 2-3 handles, UID hand-over patterns and one failing read inside a write.",
             "deterministic simulation: UID holder model from served bytes"),
     "C07": ("E-HIST", "exploration", "4/C07",
             "Every audited state issues a token; sync-collection is run with arbitrary earlier tokens, the empty token and never-issued tokens (random, malformed, blob/commit ids, other collections' tokens); the multistatus must equal the exact diff of the two observed snapshots and return the current token.",
             "deterministic simulation: snapshot-diff oracle over all (token i, report j) pairs"),
     "C08": ("E-HIST", "exploration", "4/C08",
-            "ctag (both namespaces), sync-token and collection getetag observed at every audit; tag -> member state must be a function, reads/refused/failed/foreign writes must not move the tag, and (members, .xandikos bytes) -> tag must be a function for git collections.",
+            "ctag (both namespaces), sync-token and collection getetag observed at every audit; tag -> member state must be a function, reads/refused/failed/foreign writes must not move the tag, and (members, .xandikos bytes) -> tag must be a function for git collections. The read-only audit is bracketed by two sync-token-only PROPFINDs so that a read which writes cannot hide inside it.",
             "deterministic simulation: tag/state functional-dependency oracle over all pairs of points"),
     "C09": ("E-HIST", "exploration", "4/C09",
             "Independent git observer (dulwich walker after every step, real `git fsck --strict` and `git status --porcelain` every 5th step and at the end) checks append-only first-parent history, exactly one commit per content change, none for no-ops, no empty commits, head tree == served bytes, clean work tree; clock jumps are injected.",
             "deterministic simulation: independent git observer on the arena"),
     "C14": ("E-HIST", "exploration", "4/C14",
-            "Bodies of the invalid classes must be refused without effect; every stored calendar/vCard member must parse with the independent parser at every audit; re-upload of served bytes must be a no-op (same ETag, same tags, same commit count).",
+            "Bodies of the invalid classes must be refused without effect; every stored calendar/vCard member must parse with the independent parser at every audit; re-upload of served bytes must be a no-op (same ETag, same tags, same commit count). Invalid bodies also go to plain WebDAV collections (the media type decides).",
             "deterministic simulation: refusal + fixed-point oracle on state"),
     "C15": ("E-HIST", "exploration", "4/C15",
-            "PROPPATCH / extended MKCOL / MKCALENDAR set and remove over all settable properties with values from a grammar of configuration-file metacharacters, interleaved with restarts and cache evictions, on file-based and git-config metadata; every acknowledged value is pinned and must read back at every later audit; other collections and members must not change.",
+            "PROPPATCH / extended MKCOL / MKCALENDAR set and remove over all settable properties with values from a grammar of configuration-file metacharacters, interleaved with restarts and cache evictions, on file-based and git-config metadata; every acknowledged value is pinned and must read back at every later audit; other collections and members must not change. 30 % of the runs inject ENOSPC/EIO into single-instruction PROPPATCH and other writes: a failed request must leave every pinned value readable.",
             "deterministic simulation: pinned-value read-back across restarts"),
     "C16": ("E-HIST", "exploration", "4/C16",
-            "Member and collection names over URL-significant and non-ASCII characters, three route prefixes, both front ends; Depth 0/1 response sets are compared with the model and every href of every listing, Location header, PROPPATCH response and href-valued property is dereferenced exactly as sent.",
+            "Member and collection names over URL-significant and non-ASCII characters, three route prefixes, both front ends; Depth 0/1 response sets are compared with the model and every href of every listing, Location header, PROPPATCH response and href-valued property is dereferenced exactly as sent. 30 % of the runs inject read errors into PROPFIND/GET/REPORT: the request may fail, a 207 may not lose a member.",
             "deterministic simulation: href-following client node"),
     "C17": ("E-HIST", "exploration", "4/C17",
             "multiget with mixed href lists (live, deleted, never-existing, duplicated, differently encoded, absolute, other collection, wrong kind, outside prefix, prefix look-alike, malformed) at arbitrary points of write histories; per-href oracle against GET plus metamorphic single-href re-query.",
